@@ -191,6 +191,25 @@ def source(prog: list, lay: Layout = CANON) -> str:
     return "\n".join(render(prog, lay).lines) + "\n"
 
 
+_COMMENT_ALPHABET = "abcxyz019 \t*/\\'\"{}[]();:,.#=+-<>&|~@!?_0"
+
+
+def _rand_comment(lay: Layout, block: bool) -> str:
+    """Random comment text: anything may appear in a comment except what ends it."""
+    rng = lay.rng
+    alphabet = _COMMENT_ALPHABET + ("\x0c\x0b\x1c\x85\u2028\u00e9\u30a2" if lay.k.get("exotic_comments") else "")
+    n = rng.choice([0, 1, 2, 5, 12, 30])
+    text = "".join(rng.choice(alphabet) for _ in range(n))
+    if block:
+        while "*/" in text:
+            text = text.replace("*/", "* /")
+        if rng.random() < 0.3:
+            text = text + rng.choice(["*", "**", " *"])        # star run right before the terminator
+        if rng.random() < 0.3:
+            text = text.replace(" ", "\n", 2)                  # spans several lines
+    return text
+
+
 def _emit(r: Rendered, lay: Layout, depth: int, text: str, st: dict | None = None, code: bool = True, plain: bool = False) -> None:
     if plain:
         # inside an argument list: not a place "between statements", so no comment or blank line is put here
@@ -205,10 +224,12 @@ def _emit(r: Rendered, lay: Layout, depth: int, text: str, st: dict | None = Non
         if lay.k.get("exotic_comments"):
             # characters some line splitters treat as line ends; inside a comment they are just comment text
             pool += ["page\x0cbreak", "vt\x0bhere", "sep\x1c\x1d\x1e", "nel\x85x", "ls\u2028ps\u2029"]
-        r.lines.append(_ind(lay, depth) + "; " + lay.rng.choice(pool))
+        r.lines.append(_ind(lay, depth) + ";" + (lay.rng.choice(pool) if lay.rng.random() < 0.5 else _rand_comment(lay, False)))
     if lay.on("block_comments", 0.1):
         c = lay.rng.random()
-        if c < 0.25:
+        if c < 0.2:
+            r.lines += (_ind(lay, depth) + "/*" + _rand_comment(lay, True) + "*/").split("\n")
+        elif c < 0.35:
             r.lines.append(_ind(lay, depth) + lay.rng.choice(["/* ---- init ---- **/", "/**** boxed ****/", "/** doc */", "/* a * b / c */", "/***/"]))
         elif c < 0.5:
             r.lines.append(_ind(lay, depth) + "/* block comment */")
@@ -217,7 +238,7 @@ def _emit(r: Rendered, lay: Layout, depth: int, text: str, st: dict | None = Non
             r.lines.append("   line { ' ; */")
     line = _ind(lay, depth) + text
     if code and lay.on("comments", 0.15):
-        line += " ; trailing"
+        line += " ;" + (" trailing" if lay.rng.random() < 0.5 else _rand_comment(lay, False))
     if lay.on("trailing", 0.2):
         line += lay.rng.choice([" ", "  ", "   "])
     if st is not None:
